@@ -2538,7 +2538,10 @@ impl Span {
     }
 
     #[inline]
-    fn milliseconds_ranged(self, milliseconds: t::SpanMilliseconds) -> Span {
+    pub(crate) fn milliseconds_ranged(
+        self,
+        milliseconds: t::SpanMilliseconds,
+    ) -> Span {
         let mut span = Span { milliseconds: milliseconds.abs(), ..self };
         span.sign = self.resign(milliseconds, &span);
         span.units = span.units.set(Unit::Millisecond, milliseconds == C(0));
@@ -2546,7 +2549,10 @@ impl Span {
     }
 
     #[inline]
-    fn microseconds_ranged(self, microseconds: t::SpanMicroseconds) -> Span {
+    pub(crate) fn microseconds_ranged(
+        self,
+        microseconds: t::SpanMicroseconds,
+    ) -> Span {
         let mut span = Span { microseconds: microseconds.abs(), ..self };
         span.sign = self.resign(microseconds, &span);
         span.units = span.units.set(Unit::Microsecond, microseconds == C(0));
@@ -2709,7 +2715,7 @@ impl Span {
     }
 
     #[inline]
-    fn get_units_ranged(&self, unit: Unit) -> NoUnits {
+    pub(crate) fn get_units_ranged(&self, unit: Unit) -> NoUnits {
         match unit {
             Unit::Year => self.get_years_ranged().rinto(),
             Unit::Month => self.get_months_ranged().rinto(),
